@@ -170,7 +170,32 @@ def d4_scan(facts, rep):
         ok2 = bool(fc) and dominated_by_edges(fn, fc[0][0], fin_edges)[0]
         rep.ob('D4', 'K4', fn, 'the final pass is applied in pass 1 only when the prefix is already final (m_is_final)', ok2,
                'final_scan_tag applied without m_is_final')
-    rep.floor('D4', 3, 'scan passes')
+        # A right child continues on the body it inherited only if that body is the one holding its left sibling's partial
+        # sum; a right child that was stolen, OR that its own thread picked up while the left sibling is still incomplete
+        # ("virtual steal"), must get a body of its own.  The decision that guards the creation of that private body
+        # (new final_sum) therefore depends on the steal status AND on the identity parent->left_sum == own body.
+        defs = Defs(fn)
+        zs = [c for c in calls_named(fn, ('new_object',)) if 'new_object<tbb::detail::d1::final_sum<' in (c[3].get('q') or '')]
+        if not zs:
+            raise AnalysisBroken('start_scan::execute: creation of the private body (final_sum) not found')
+        for pos, sx, node, d in zs:
+            deps_ok = False
+            for b, blk in fn.blocks.items():
+                for si in (0, 1):
+                    conds = fn.edge_conds(b, si)
+                    if not conds or not dominated_by_edges(fn, pos, {(b, si)})[0]:
+                        continue
+                    for a, truth in conds:
+                        src = resolve_cond_source(fn, defs, a)
+                        sub = fn.subtree(src)
+                        has_steal = any(fn.nodes[x].get('k') == 'call' and (fn.callee(x) or {}).get('n') == 'is_stolen' for x in sub)
+                        has_left = any(fn.nodes[x].get('k') == 'member' and fn.nodes[x].get('n') == 'm_left_sum' for x in sub)
+                        if has_steal and has_left:
+                            deps_ok = True
+            rep.ob('D4', 'K4', fn, 'a right child gets a body of its own when it was stolen or when its left sibling has not delivered its sum yet', deps_ok,
+                   'the decision depends on the steal status only: a right child that the same thread starts while the left sibling is '
+                   'suspended in a nested wait runs the final pass on the shared body with an incomplete prefix', ln=node['ln'])
+    rep.floor('D4', 4, 'scan passes')
 
 
 def d5_sort(facts, rep):
